@@ -266,6 +266,20 @@ pub fn panic_sweep(ctx: &Ctx, quick: bool) {
             }
         }
     }
+    // every slice-length triple up to 3 over honest material: mismatches must be Err, never a panic
+    {
+        let batch: Vec<Entry> = (0..3).map(|i| Entry { key: i as u8, msg: i as u8, corrupt: 0 }).collect();
+        for a in 0..=3usize {
+            for b in 0..=3usize {
+                for c in 0..=3usize {
+                    ctx.eval(1);
+                    if let Err(e) = run_batch(&w, &batch, (a, b, c)) {
+                        ctx.violation("batch.verify_batch.lengths", &e, json!({"kind": "batch_lengths", "messages": a, "signatures": b, "keys": c}));
+                    }
+                }
+            }
+        }
+    }
     // adversarial (small-order / mixed-order) keys and R: only "no panic" is required
     let t = crate::model::ed::torsion();
     for j in 0..8 {
